@@ -9,6 +9,7 @@ import (
 	"time"
 
 	"github.com/drand/drand/v2/common"
+	dhttp "github.com/drand/drand/v2/handler/http"
 )
 
 func init() { engines["time"] = timeEngine }
@@ -27,6 +28,11 @@ func timeEngine(_ []string, in *bufio.Scanner, out *bufio.Writer) {
 				g, _ := strconv.ParseInt(f[2], 10, 64)
 				r, _ := strconv.ParseUint(f[3], 10, 64)
 				return fmt.Sprint(common.TimeOfRound(time.Duration(p)*time.Second, g, r))
+			case "date": // the HTTP layer's scheduled time of a round
+				p, _ := strconv.ParseInt(f[1], 10, 64)
+				g, _ := strconv.ParseInt(f[2], 10, 64)
+				r, _ := strconv.ParseUint(f[3], 10, 64)
+				return fmt.Sprint(dhttp.VerifDateOfRound(r, p, g))
 			case "next":
 				now, _ := strconv.ParseInt(f[1], 10, 64)
 				p, _ := strconv.ParseInt(f[2], 10, 64)
